@@ -608,10 +608,10 @@ def rule_limit_spellings(ctx):
     def string_cell(ch):
         # the body between the quotes is abstract: its length class and the length after un-escaping are chosen
         body_length = ch.choose("len(body)", ["one", "other"])
-        unescaped_length = ch.choose("len(unescaped)", ["one", "other"]) if body_length == "other" else None
+        unescaped_length = ch.choose("len(unescaped)", ["one", "other"])
         body = AText(AText.TEXT, "body")
         unescaped = AText(AText.TEXT, "unescaped")
-        code = Sym("code")
+        code_of_body, code_of_unescaped = Sym("code(body)"), Sym("code(unescaped)")
         quoted = AText(AText.TEXT, "quoted")
         quoted.methods = {}
 
@@ -652,20 +652,30 @@ def rule_limit_spellings(ctx):
 
         def ord_hook(interp, args, kwargs):
             if args[0] is body and body_length == "one":
-                return code
+                return code_of_body
             if args[0] is unescaped and unescaped_length == "one":
-                return code
+                return code_of_unescaped
             raise Undecided("ord(%r)" % (args[0],))
 
         interp, outcome = run_call(
             model, ch, string_info.qualname, ["name", quoted, None],
             externals={"text_subscript": text_subscript, "text_len": text_len, "ord": ord_hook, "in_str": lambda i, a, k: True},
         )
-        actual = ("raise " + exc_name(outcome[1])) if outcome[0] == "raise" else ("code" if outcome[1] is code else repr(outcome[1]))
-        single = body_length == "one" or unescaped_length == "one"
-        return ("body=%s unescaped=%s" % (body_length, unescaped_length), actual, "code" if single else "raise InterfaceError")
+        if outcome[0] == "raise":
+            actual = "raise " + exc_name(outcome[1])
+        else:
+            actual = {id(code_of_body): "code of the character", id(code_of_unescaped): "code of the un-escaped text"}.get(id(outcome[1]), repr(outcome[1]))
+        # one character between the quotes denotes itself (un-escaping a non-ASCII character through Latin-1 would
+        # change it); longer text is un-escaped first and must then be one character
+        if body_length == "one":
+            expected = "code of the character"
+        elif unescaped_length == "one":
+            expected = "code of the un-escaped text"
+        else:
+            expected = "raise InterfaceError"
+        return ("body=%s unescaped=%s" % (body_length, unescaped_length), actual, expected)
 
-    decide(ctx, "O1.6", "string-limit(one character, escapes un-escaped first)", string_info.qualname, string_cell, min_cells=3)
+    decide(ctx, "O1.6", "string-limit(one character, escapes un-escaped first)", string_info.qualname, string_cell, min_cells=4)
 
     # token-kind dispatch of Range.__init__: which helper receives which token kind (events of the constructor table)
     _dispatch_rule(ctx)
